@@ -159,8 +159,8 @@ func c08Registry() []c08Entry {
 
 	// magic block and what it is made of
 	mbAlpha := map[string][]any{"PublicKey": c08NodeKeys}
-	es = append(es, c08Entry{Name: "block.MagicBlock", New: func() c08Codec { return &block.MagicBlock{} }, Alphabets: mbAlpha})
 	es = append(es, c08Entry{Name: "node.Pool", New: func() c08Codec { return &node.Pool{} }, Alphabets: mbAlpha})
+	es = append(es, c08Entry{Name: "block.MagicBlock", New: func() c08Codec { return &block.MagicBlock{} }, Alphabets: mbAlpha})
 	add("node.Node", c08Ptr[node.Node]())
 	add("node.Info", c08Ptr[node.Info]())
 	add("client.Client", c08Ptr[client.Client]())
